@@ -312,12 +312,13 @@ func (c *sctx) block(l []ast.Stmt, k func() string) string {
 		ri := 0
 		for _, r := range s.Results {
 			if isNilIdent(r) {
-				ri++
 				continue
+			}
+			if id, ok := r.(*ast.Ident); ok && c.v.types[id.Name] == "error" {
+				continue // an error that is nil by assumption
 			}
 			if ev, ok := c.effectCall(r); ok {
 				pre += "let ev_ := ev_ ++ [" + ev + "] in\n   "
-				ri++
 				continue
 			}
 			if sg, args, ok := c.transCall(r); ok {
@@ -431,12 +432,25 @@ func (c *sctx) block(l []ast.Stmt, k func() string) string {
 					if !ok0 {
 						fail("opaque call bound to a non-identifier")
 					}
-					sl, ok := c.t.Slices[op.Bind]
-					if !ok {
-						fail("opaque call %s: parameter %s is not declared under slices", selKey(call.Fun), op.Bind)
+					switch {
+					case op.Kind == "" || op.Kind == "slice":
+						if _, ok := c.t.Slices[op.Bind]; !ok {
+							fail("opaque call %s: parameter %s is not declared under slices", selKey(call.Fun), op.Bind)
+						}
+						c.v.types[id0.Name] = "slice:" + op.Bind
+					case op.Kind == "struct":
+						if id0.Name != op.Bind {
+							fail("opaque call %s must be bound to %s", selKey(call.Fun), op.Bind)
+						}
+						for _, f := range op.Fields {
+							c.v.fields[op.Bind+"."+f.Name] = c.v.normType(f.Type)
+						}
+					default:
+						if id0.Name != op.Bind {
+							fail("opaque call %s must be bound to %s", selKey(call.Fun), op.Bind)
+						}
+						c.v.types[id0.Name] = c.v.normType(op.Kind)
 					}
-					_ = sl
-					c.v.types[id0.Name] = "slice:" + op.Bind
 					for _, lh := range s.Lhs[1:] {
 						if id, ok := lh.(*ast.Ident); ok && id.Name != "_" {
 							c.v.types[id.Name] = "error"
@@ -445,6 +459,9 @@ func (c *sctx) block(l []ast.Stmt, k func() string) string {
 					pre := ""
 					if id0.Name != op.Bind {
 						pre = "let " + id0.Name + " := " + op.Bind + " in\n   "
+					}
+					if !define && (op.Kind != "" && op.Kind != "slice") {
+						fail("opaque call %s must be bound with :=", selKey(call.Fun))
 					}
 					return "(" + pre + rest() + ")"
 				}
@@ -806,12 +823,24 @@ func translateStateful(t *target, fd *ast.FuncDecl, v *env) string {
 		sg.fieldParams = append(sg.fieldParams, k)
 	}
 	var binds []string
+	byBind := map[string]opaqueSpec{}
 	for _, op := range t.Opaque {
 		binds = append(binds, op.Bind)
+		byBind[op.Bind] = op
 	}
 	sortStrings(binds)
 	for _, b := range binds {
-		lead = append(lead, "("+b+" : list "+sliceElemType(t.Slices[b])+")")
+		op := byBind[b]
+		switch {
+		case op.Kind == "" || op.Kind == "slice":
+			lead = append(lead, "("+b+" : list "+sliceElemType(t.Slices[b])+")")
+		case op.Kind == "struct":
+			for _, f := range op.Fields {
+				lead = append(lead, "("+gname(b+"."+f.Name)+" : "+map[bool]string{true: "bool", false: "Z"}[v.normType(f.Type) == "bool"]+")")
+			}
+		default:
+			lead = append(lead, "("+b+" : "+map[bool]string{true: "bool", false: "Z"}[v.normType(op.Kind) == "bool"]+")")
+		}
 	}
 	params = append(lead, params...)
 	{
